@@ -128,6 +128,8 @@ mod rewind;
 pub mod server;
 pub mod service;
 pub mod stream;
+#[cfg(feature = "verif-hooks")]
+pub mod verif;
 
 pub use body::Body;
 #[cfg(feature = "client")]
